@@ -93,7 +93,7 @@ def g_cc_digest(ctx):
 
 def g_cc_diag(ctx):
     F = _cc_facts(ctx)
-    return [rules_cc.rule_panic(F), rules_cc.rule_lines(F)]
+    return [rules_cc.rule_panic(F), rules_cc.rule_lines(F), rules_cc.rule_locs(F)]
 
 
 def g_cc_det(ctx):
@@ -163,7 +163,7 @@ RULE_GROUP = {
     "T-PLAN": "plan", "T-SEMI": "plan", "T-ENV": "plan", "T-FLAT": "flat",
     "T-LOOP": "loop", "T-PENDING": "loop",
     "T-MOR": "mor", "T-AGE": "mor", "T-PRUNE-USE": "mor",
-    "M-DIGEST": "cc_digest", "M-PANIC": "cc_diag", "M-LINES": "cc_diag", "M-DET": "cc_det", "M-PAR": "cc_det", "M-DIRTAINT": "cc_det",
+    "M-DIGEST": "cc_digest", "M-PANIC": "cc_diag", "M-LINES": "cc_diag", "M-LOCS": "cc_diag", "M-DET": "cc_det", "M-PAR": "cc_det", "M-DIRTAINT": "cc_det",
     "M-FUNCDOM": "cc_misc", "M-EMIT": "cc_misc", "M-DETRT": "rt_det", "T-X": "x", "T-DET": "x", "T-TYPECHECK": "typecheck",
     "M-MAPFREE": "rt_mir", "M-FREEZE": "rt_mir", "M-UNSAFE": "rt_mir", "M-CBORDER": "rt_mir", "M-LEN": "rt_mir", "M-SIZE": "rt_mir",
     "M-BAL": "rt_mir", "M-SYM": "rt_mir", "M-KAHN": "rt_mir", "M-UF": "rt_syn", "S-SIB": "rt_syn", "S-PRUNE": "rt_syn",
@@ -194,7 +194,7 @@ PROPERTIES = {
     "C18": {"rules": ["M-SYM", "M-KAHN", "T-MOR"], "level": "other"},
     "C06": {"rules": ["T-ALLOC", "M-FUNCDOM", "T-DIRTY", "T-MOVE", "T-CANON", "S-PRUNE"], "level": "other"},
     "C09": {"rules": ["T-TYPECHECK", "T-ENV", "T-X", "T-DELTA"], "level": "translation_validation"},
-    "C11": {"rules": ["M-PANIC", "M-LINES"], "level": "other"},
+    "C11": {"rules": ["M-PANIC", "M-LINES", "M-LOCS"], "level": "other"},
     "C12": {"rules": ["M-DIGEST"], "level": "other"},
     "C13": {"rules": ["M-DET", "M-PAR", "M-DIRTAINT"], "level": "other"},
     "C19": {"rules": ["T-X", "M-EMIT"], "level": "translation_validation"},
